@@ -130,7 +130,7 @@ func (in *Interp) sqlCheckOverflow(t *sym.Term) *sym.Term {
 	if in.Branch(over) {
 		in.fail("unsupported", "sql: integer overflow in SQL arithmetic (SQLite would promote to REAL); outside the model, harness must bound balances")
 	}
-	return f.Bounded(t, int64Min, int64Max)
+	return t
 }
 
 func sqlEqualConcrete(a, b Value) (bool, bool) {
@@ -442,6 +442,7 @@ func (e *sqlEnv) evalFunc(x *sqlExpr) Value {
 		}
 		var acc Value
 		cnt := 0
+		allNonNeg := true
 		for _, tuple := range e.group {
 			sub := *e
 			sub.rows = tuple
@@ -470,8 +471,18 @@ func (e *sqlEnv) evalFunc(x *sqlExpr) Value {
 			case "MAX":
 				acc = f.Ite(f.Gt(tv, ta), tv, ta)
 			case "SUM", "TOTAL":
-				acc = in.sqlCheckOverflow(f.Add(ta, tv))
+				if tv.Lo == nil || tv.Lo.Sign() < 0 || ta.Lo == nil || ta.Lo.Sign() < 0 {
+					allNonNeg = false
+				}
+				if allNonNeg {
+					acc = f.Add(ta, tv) // partial sums are monotone: one check at the end
+				} else {
+					acc = in.sqlCheckOverflow(f.Add(ta, tv))
+				}
 			}
+		}
+		if (x.s == "SUM" || x.s == "TOTAL") && acc != nil && allNonNeg {
+			acc = in.sqlCheckOverflow(acc.(*sym.Term))
 		}
 		if x.s == "COUNT" {
 			return f.Int(int64(cnt))
